@@ -131,6 +131,24 @@ class Ctx(object):
             self.report(case, wcase, res, why, phase=name)
         return r
 
+    def numba_phase(self, name, module, consts, max_forms=None, max_cases_per_form=None, **kw):
+        import l2numba
+        r = self.tlc_phase(name, module, consts, replay_cases=False, **kw)
+        if r is None or not r.ncases:
+            return r
+        built = self.build_l2()
+        stats, fails = l2numba.replay_numba(built["l2_path"], r.cases_path, seed=self.seed, max_forms=max_forms,
+                                            max_cases_per_form=max_cases_per_form)
+        ph = self.phases[-1]
+        ph.update({"replayed_l2_numba": stats["n"], "replay_ok": stats["ok"], "forms_compiled": stats["compiled_forms"],
+                   "forms_total": stats["forms_total"], "refcount_checked": stats["refcount_checked"],
+                   "expected_errors": stats["err_expected"], "unspecified_skipped": stats["unspec"]})
+        self.replayed += stats["n"]
+        self._take_samples(r.cases_path)
+        for idx, case, wcase, res, why in fails:
+            self.report(case, wcase, res, why, phase=name)
+        return r
+
     def _take_samples(self, path, k=2):
         if len(self.samples) >= 6:
             return
